@@ -1,14 +1,40 @@
 """C03 -- every orientation parametrisation yields a proper rotation and inverts exactly"""
+import math
 from .common import *
 
 CONSTRUCTORS = ['euler_to_u', 'form_omega_mat', 'form_omega_mat_general', 'detect_tilt', 'quart_to_omega', 'rod_to_u']
+INVERSES = ['u_to_rod', '_arctan2', 'u_to_euler']
+
+
+def bounded_euler_lock(module):
+    """u_to_euler(euler_to_u(.)) rebuilds U within 1e-6 at and near gimbal lock"""
+    import importlib
+    import numpy as np
+    mod = importlib.import_module('xfab.' + module)
+
+    def f(rng):
+        e = rng.choice([0.0, 1e-12, 1e-10, 1e-9, 5e-9, 1e-8, 2e-8, 1e-7, 1e-6, 1e-5, 1e-4, 1e-3])
+        PHI = e if rng.random() < 0.5 else math.pi - e
+        p1 = rng.choice([0.0, 0.05, math.pi / 2, math.pi, 3.0, rng.uniform(0, 2 * math.pi)])
+        p2 = rng.choice([0.0, 0.3, math.pi / 2, math.pi, 4.0, rng.uniform(0, 2 * math.pi)])
+        U = mod.euler_to_u(p1, PHI, p2)
+        a = mod.u_to_euler(U)
+        U2 = mod.euler_to_u(*a)
+        err = float(np.abs(U2 - U).max())
+        ok = err <= 1e-6 and 0 <= a[0] <= 2 * math.pi and 0 <= a[1] <= math.pi and 0 <= a[2] <= 2 * math.pi
+        if not ok:
+            return {'euler': [p1, PHI, p2], 'returned': list(map(float, a)), 'rebuild_error': err}
+    return f
 
 
 def units(tier):
     us = []
     for m in ('tools', 'laue'):
-        for f in CONSTRUCTORS:
+        for f in CONSTRUCTORS + INVERSES:
             us.append(FuncUnit(m, f))
+        us.append(BoundedUnit(m + '.u_to_euler_near_gimbal_lock', bounded_euler_lock(m), 2000, 200000,
+                              'u_to_euler(euler_to_u(phi1,PHI,phi2)) rebuilds U within 1e-6 for PHI at / within '
+                              '1e-12..1e-3 of 0 and pi'))
     return us
 
 
